@@ -228,6 +228,10 @@ func scenModes(out *scenOut, r *rng, thorough bool) {
 		termDuringStartup(out, cause, true) // (child process; reports under C04 and C05)
 	}
 	modesMethodsDuringStartup(out)
+	for _, cause := range []string{"quit", "kill", "ctx"} {
+		slowOutputAtExit(out, cause)
+	}
+	modesWhileFrameStalls(out, r)
 	for _, cause := range []string{"quitmsg", "kill", "ctx", "interrupt"} {
 		noRendererRuns(out, cause) // (the C05 part: a program without a renderer writes nothing)
 	}
@@ -553,4 +557,121 @@ func firstN(s string, n int) string {
 		return s[:n]
 	}
 	return s
+}
+
+// slowOutputAtExit: the output stalls for 1.4 s in the middle of a frame while the program is asked
+// to end (a slow link, a pager that has not read yet): Run returns later - and when it does, the
+// terminal is restored, however long the last write took (C05).
+func slowOutputAtExit(out *scenOut, cause string) {
+	ctl := newRecCtl()
+	g := newGate(false)
+	buf := &safeBuffer{gate: g}
+	var ups int32
+	ctl.viewOf = func(version, n int) string { atomic.StoreInt32(&ups, int32(n)); return fmt.Sprintf("view %d\nline\n", n) }
+	parent, cancel := context.WithCancel(context.Background())
+	defer cancel()
+	run := startProgram(ctl, buf, tea.WithInput(nil), tea.WithoutSignalHandler(), tea.WithFPS(60), tea.WithContext(parent),
+		tea.WithAltScreen(), tea.WithMouseCellMotion(), tea.WithReportFocus())
+	desc := "alt screen + mouse + focus; the output stalls for 1.4 s inside the next frame; meanwhile " + cause
+	defer g.open()
+	if !waitFor(3*time.Second, func() bool { return ctl.log.has("view-exit", "") }) {
+		return
+	}
+	time.Sleep(50 * time.Millisecond)
+	atomicArm(g)
+	run.p.Send(userMsg{0, 0}) // a new view: the next tick writes and stalls
+	if !g.waitArrived(2 * time.Second) {
+		out.record("slow-output-at-exit (writer not reached)", desc)
+		return
+	}
+	switch cause {
+	case "quit":
+		go run.p.Quit()
+	case "kill":
+		go run.p.Kill()
+	case "ctx":
+		cancel()
+	}
+	time.Sleep(1400 * time.Millisecond)
+	g.open()
+	out.record("slow-output-at-exit/"+cause, desc)
+	if !run.wait(5 * time.Second) {
+		out.fail(finding{Property: "C04", Class: "new", What: "Run does not return after the stalled output went on", Input: desc, Observed: goroutineDump()})
+		return
+	}
+	time.Sleep(20 * time.Millisecond)
+	t := newVterm(80, 24)
+	t.write([]byte(buf.String()))
+	if got, initial := vtModes(t), (modeSpec{}).String(); got != initial {
+		out.fail(finding{Property: "C05", Class: "new", What: "terminal not restored when Run returns (the output had stalled for more than a second during the last frame)", Input: desc, Expected: initial, Observed: got})
+	}
+}
+
+// modesWhileFrameStalls: the output stalls for 1.2 s inside a frame (the ticker goroutine holds the
+// renderer meanwhile); the program processes a history of mode commands in that time. When the
+// output goes on and the program is idle, the terminal's modes equal options + commands (C12) - a
+// mode command waits for the renderer, it is never skipped or postponed to some later frame.
+func modesWhileFrameStalls(out *scenOut, r *rng) {
+	ctl := newRecCtl()
+	g := newGate(false)
+	buf := &safeBuffer{gate: g}
+	spec := modeOpts{}.initial()
+	var second int32
+	ctl.viewOf = func(version, ups int) string { // two views only: after the stalled frame nothing changes any more
+		if atomic.LoadInt32(&second) == 1 {
+			return "second view\nline\n"
+		}
+		return "first view\nline\n"
+	}
+	run := startProgram(ctl, buf, tea.WithInput(nil), tea.WithoutSignalHandler(), tea.WithFPS(60))
+	defer g.open()
+	if !waitFor(3*time.Second, func() bool { return ctl.log.has("view-exit", "") }) {
+		return
+	}
+	time.Sleep(40 * time.Millisecond)
+	atomicArm(g)
+	atomic.StoreInt32(&second, 1)
+	run.p.Send(userMsg{0, 0}) // the new view: the next tick writes and stalls
+	if !g.waitArrived(2 * time.Second) {
+		out.record("modes-while-frame-stalls (writer not reached)", "")
+		g.open()
+		run.p.Kill()
+		run.wait(3 * time.Second)
+		return
+	}
+	var names []string
+	sent := make(chan struct{})
+	hist := make([]int, 8)
+	hist = []int{9, 2, 7, 6} // show, mousecell, focus, nopaste: each changes the state the program started with
+	for i := range hist {
+		// (cursor, mouse, paste and focus commands only: an alt-screen switch or a ClearScreen makes the
+		// next frame repaint, and with it whatever a renderer might have postponed)
+		names = append(names, modeCmds[hist[i]].name)
+		modeCmds[hist[i]].apply(&spec)
+	}
+	desc := fmt.Sprintf("the output stalls 1.2 s inside a frame while cmds=[%s] are processed; then idle", strings.Join(names, ","))
+	go func() {
+		for _, i := range hist {
+			run.p.Send(modeCmds[i].msg())
+		}
+		run.p.Send(userMsg{0, 1})
+		close(sent)
+	}()
+	time.Sleep(1200 * time.Millisecond)
+	g.open()
+	<-sent
+	waitFor(3*time.Second, func() bool { return ctl.log.has("update-exit", "u0.1") })
+	time.Sleep(60 * time.Millisecond) // idle: a few frame intervals
+	out.record("modes-while-frame-stalls", desc)
+	t := newVterm(80, 24)
+	t.write([]byte(buf.String()))
+	if got := vtModes(t); got != spec.String() {
+		out.fail(finding{Property: "C12", Class: "new", What: "terminal modes differ from what options and commands asked for (mode commands processed while a frame write was stalled)", Input: desc,
+			Expected: spec.String(), Observed: got})
+	}
+	run.p.Quit()
+	if !run.wait(4 * time.Second) {
+		run.p.Kill()
+		run.wait(3 * time.Second)
+	}
 }
